@@ -95,6 +95,8 @@ def quantize_fraction_spec(ctx: Ctx):
              raises="ValueError"),
     ]
     ctx.axiom(S.rnd_fact(ratio, mode))
+    ctx.axiom(S.rnd_integral_fact(ratio, mode),
+              "A3: ground instance of lemma round_rel/integers-fixed")
     ctx.axiom(S.num_den_fact(ratio), "A3: numer/denom are spec functions "
                                      "with numer(x)/denom(x) == x, denom(x) > 0")
     return [], cases
